@@ -13,7 +13,7 @@ import (
 
 var ruleRuneWrite = &Rule{
 	Name: "R-RUNEWRITE", NeedSSA: true,
-	Doc: "in package parser every write into a text buffer (strings.Builder / bytes.Buffer) is WriteRune, WriteString, or a WriteByte of a constant or of a value that was a byte all along; a WriteByte (or append to a byte slice) of a value narrowed from a rune or int is allowed only below a dominating test that the value is < 0x80: decoded escapes such as \\xE9 must reach the token as the code point, not as a raw byte",
+	Doc: "in package parser every write into a text buffer (strings.Builder / bytes.Buffer) is WriteRune, WriteString, or a WriteByte of a constant or of a value that was a byte all along; a WriteByte (or append to a byte slice) of a value narrowed from a rune or int is allowed only below a dominating test that the value is < 0x80: decoded escapes such as \\xE9 must reach the token as the code point, not as a raw byte; a byte handed back by a helper of the package is judged where the helper makes it",
 	Run: func(p *Prog) *RuleOut {
 		out := newOut("R-RUNEWRITE")
 		nw, nb := 0, 0
